@@ -336,6 +336,39 @@ func c06b(c *Ctx) {
 			}
 		}
 		c.Check(nApp == 1, name+"/definition-appended-once", c.W.Pos(d.Pos()), "definition appended once to "+s.list, fmt.Sprintf("definition appended %d times", nApp))
+		// every record is patched: no iteration completes without storing a label into the
+		// record's argument slot (an "empty" record still owns a placeholder argument)
+		{
+			isPatch := func(in ssa.Instruction) bool {
+				st, ok := in.(*ssa.Store)
+				if !ok {
+					return false
+				}
+				ia, ok := st.Addr.(*ssa.IndexAddr)
+				return ok && strings.Contains(c.term(fn, ia.X), ".command.Args")
+			}
+			var head *ssa.BasicBlock
+			for _, b := range fn.Blocks {
+				if isLoopHeader(b) {
+					head = b
+					break
+				}
+			}
+			if head == nil {
+				c.Unk(name+"/every-record-patched", c.W.FuncPos(fn), "cannot find the loop over the records")
+			} else {
+				skip := false
+				for _, sc := range head.Succs {
+					if !loopBody(head)[sc] {
+						continue
+					}
+					if _, free := existsPath(pathQuery{from: point{sc, 0}, avoid: isPatch, target: func(in ssa.Instruction) bool { return in.Block() == head && idxInBlock(in) == 0 }}); free {
+						skip = true
+					}
+				}
+				c.Check(!skip, name+"/every-record-patched", c.W.FuncPos(fn), "every record's argument slot receives a label", "an iteration over the inline records can complete without storing a label into the record's argument: the command would keep its empty placeholder argument")
+			}
+		}
 		// full range over the records
 		c.Check(strings.HasPrefix(recElem, "$1[phi(") && strings.HasSuffix(recElem, "+1]"), name+"/all-records", c.W.FuncPos(fn), "every record is processed in order", "records are not processed by a full in-order range ("+pretty(recElem)+")")
 	}
